@@ -249,7 +249,7 @@ def inspect_cache(env, cache, keys, viol, kindlabel):
     except Exception as e:
         viol("keys_raises", "cache.keys() raised %r" % (e,), None)
         listed = []
-    for k in sorted(set(listed) | set(keys)):
+    for k in sorted(x for x in (set(listed) | set(keys)) if isinstance(x, str)):
         if k in (None, ""):
             continue
         env.count("inspected_keys")
